@@ -1,8 +1,1120 @@
-fn main() {
-    let t = std::time::Instant::now();
-    for scale in [1u8, 2] {
-        let items = corpus::items(1, scale);
-        eprintln!("scale {scale}: {} items in {:?}, total bytes {}", items.len(), t.elapsed(), items.iter().map(|i| i.bytes.len()).sum::<usize>());
-        for i in &items { eprintln!("  {:?} {} {} writable={}", i.kind, i.name, i.bytes.len(), i.side.writable); }
+//! C16 — async readers and writers behave exactly like their synchronous counterparts.
+//!
+//! Case kinds (every case is a small batch of *pairs* = (input or history, configuration); configuration = poll script of
+//! the `PollRead` / `PollWrite` adversary × tokio runtime flavour × BGZF worker count × H1 delay plan):
+//!   RD  reader: async transcript (c16::rd, element-for-element mirror of `corpus::transcript_read`) == sync
+//!       transcript of the same bytes; valid corpus items, re-blocked BGZF layouts, truncated and one-byte-corrupt inputs
+//!       (error kind and position in the transcript are part of the comparison; message texts are not).
+//!   SK  BGZF operation histories with `seek` / `seek_by_uncompressed_position` on both readers.
+//!   QY  region queries (BAM+BAI, SAM.gz+CSI, BCF+CSI, VCF.gz+tabix, csi::IndexedReader, CRAM+CRAI): one reader, a
+//!       sequence of queries (with repeats and the unmapped query), async == sync.
+//!   WR  writer: async write history (c16::wr, mirror of `corpus::write_prepared`, finished with `shutdown()`):
+//!       uncompressed formats byte-identical to the sync output; compressed formats well-formed (independent BGZF
+//!       walker, EOF marker) and decoding (sync reader) to what the sync output decodes to.
+//! Hook H1 delays individual inflate / deflate jobs inside the `spawn_blocking` closures; the event log yields the
+//! completion inversions that were actually realised.
+
+mod hook;
+mod qy;
+mod rd;
+mod rt;
+mod sk;
+mod wr;
+
+use std::sync::{Arc, OnceLock};
+
+use corpus::{Item, Kind, Variant};
+use serde_json::{Value, json};
+use vcore::{
+    CaseOut, Ctx, Report, Rng,
+    aadv::{PollRead, PollScript, PollStats, PollWrite},
+    bgzf as obgzf, guard,
+    rng::fnv1a,
+    run_cases,
+};
+
+use rt::{Flavor, RunErr};
+
+// ------------------------------------------------------------------------------------------------
+// configurations
+// ------------------------------------------------------------------------------------------------
+
+#[derive(Clone, Debug)]
+struct Cfg {
+    script: PollScript,
+    flavor: Flavor,
+    /// BGZF worker count (1..8); ignored by kinds without a builder for it
+    workers: usize,
+    plan: &'static str,
+}
+
+fn cfg_json(c: &Cfg) -> Value {
+    json!({"script": c.script.describe(), "runtime": c.flavor.name(), "workers": c.workers, "plan": c.plan})
+}
+
+/// The 16 poll-script classes: always ready; fixed chunks 1,2,3,7,17,4096; random chunks; Pending with probability
+/// 1/2, 1/3, 1/10 combined with chunking.
+fn script_class(i: usize, seed: u64) -> PollScript {
+    let s = |max_chunk, random, pending_num, pending_den| PollScript { max_chunk, random, pending_num, pending_den, seed };
+    match i % 16 {
+        0 => s(0, false, 0, 1),
+        1 => s(1, false, 0, 1),
+        2 => s(2, false, 0, 1),
+        3 => s(3, false, 0, 1),
+        4 => s(7, false, 0, 1),
+        5 => s(17, false, 0, 1),
+        6 => s(4096, false, 0, 1),
+        7 => s(64, true, 0, 1),
+        8 => s(5000, true, 0, 1),
+        9 => s(0, false, 1, 2),
+        10 => s(1, false, 1, 2),
+        11 => s(3, false, 1, 3),
+        12 => s(17, true, 1, 3),
+        13 => s(7, false, 1, 10),
+        14 => s(4096, true, 1, 10),
+        _ => s(100, true, 1, 2),
     }
+}
+
+/// Tiny-chunk scripts on big inputs are scaled so that one pair needs at most ~`max_polls` transfers.
+fn scale_script(mut s: PollScript, len: usize, max_polls: usize) -> PollScript {
+    if s.max_chunk > 0 {
+        let eff = if s.random { (s.max_chunk / 2).max(1) } else { s.max_chunk };
+        if len / eff > max_polls {
+            let f = len.div_ceil(max_polls);
+            s.max_chunk = if s.random { 2 * f } else { f };
+        }
+    }
+    s
+}
+
+const PLANS_ACTIVE: &[&str] = &["reverse", "random", "one_slow", "end_heavy"];
+
+/// `n` configurations, rotating through script classes, flavours, worker counts and (for BGZF kinds) delay plans so
+/// that the whole run covers the product evenly; `salt` de-correlates the rotation between inputs.
+fn cfgs_rotating(n: usize, salt: u64, seed: u64, bgzf: bool, len: usize) -> Vec<Cfg> {
+    (0..n)
+        .map(|j| {
+            let k = salt as usize + j;
+            let script = scale_script(script_class(k, seed ^ salt.wrapping_mul(31) ^ j as u64), len, 400_000);
+            let flavor = if (k / 16 + j) % 2 == 0 { Flavor::Ct } else { Flavor::Mt4 };
+            let workers = 1 + (k * 3 + j / 2) % 8;
+            let plan = if bgzf && j % 3 == 1 { PLANS_ACTIVE[(k / 3) % PLANS_ACTIVE.len()] } else { "none" };
+            Cfg { script, flavor, workers, plan }
+        })
+        .collect()
+}
+
+/// Full product for the thorough tier: 16 scripts × 2 flavours × (8 worker counts | 8 script seeds).
+fn cfgs_product(salt: u64, seed: u64, bgzf: bool, len: usize) -> Vec<Cfg> {
+    let mut v = Vec::new();
+    for sc in 0..16usize {
+        for (fi, flavor) in [Flavor::Ct, Flavor::Mt4].into_iter().enumerate() {
+            for w in 1..=8usize {
+                let script = scale_script(script_class(sc, seed ^ salt.wrapping_mul(131) ^ ((sc * 16 + w) as u64)), len, 400_000);
+                let plan = if bgzf && (sc + w + fi) % 3 == 0 { PLANS_ACTIVE[(sc + w) % PLANS_ACTIVE.len()] } else { "none" };
+                v.push(Cfg { script, flavor, workers: w, plan });
+            }
+        }
+    }
+    v
+}
+
+/// Schedule exploration: every worker count 2..8 × every active plan, on a multi-block input.
+fn cfgs_schedules(salt: u64, seed: u64, len: usize, per_plan: usize) -> Vec<Cfg> {
+    let mut v = Vec::new();
+    for w in 2..=8usize {
+        for (pi, plan) in PLANS_ACTIVE.iter().enumerate().take(per_plan) {
+            let k = salt as usize + w * 5 + pi;
+            // mostly large transfers so that several frames are available at once
+            let sc = [0usize, 6, 8, 14, 9][k % 5];
+            let script = scale_script(script_class(sc, seed ^ k as u64), len, 400_000);
+            v.push(Cfg { script, flavor: if k % 2 == 0 { Flavor::Mt4 } else { Flavor::Ct }, workers: w, plan });
+        }
+    }
+    v
+}
+
+// ------------------------------------------------------------------------------------------------
+// cases
+// ------------------------------------------------------------------------------------------------
+
+#[derive(Clone, Debug, PartialEq)]
+enum Malform {
+    None,
+    /// the file is cut after `n` bytes
+    Truncate(usize),
+    /// byte `n` is XORed with 1
+    Flip(usize),
+}
+
+impl Malform {
+    fn class(&self) -> &'static str {
+        match self {
+            Malform::None => "valid",
+            Malform::Truncate(_) => "truncated",
+            Malform::Flip(_) => "corrupt",
+        }
+    }
+}
+
+#[derive(Clone, Debug)]
+enum What {
+    Rd { item: usize, variant: Variant, reseal: usize, malform: Malform },
+    Sk { item: usize, reseal: usize, hseed: u64 },
+    Qy { data: usize, index: usize, mode: qy::Mode, qseed: u64 },
+    Wr { item: usize, level: Option<u8> },
+}
+
+#[derive(Clone, Debug)]
+struct Case {
+    what: What,
+    cfgs: Vec<Cfg>,
+}
+
+struct World {
+    items: Vec<Item>,
+    cases: Vec<Case>,
+}
+
+fn variant_name(v: Variant) -> &'static str {
+    match v {
+        Variant::Primary => "primary",
+        Variant::Eager => "eager",
+        Variant::Indexer => "indexer",
+    }
+}
+
+fn case_json(w: &World, c: &Case) -> Value {
+    let what = match &c.what {
+        What::Rd { item, variant, reseal, malform } => {
+            json!({"kind": "RD", "item": w.items[*item].name, "variant": variant_name(*variant), "reseal_block_len": reseal, "malform": format!("{malform:?}")})
+        }
+        What::Sk { item, reseal, hseed } => json!({"kind": "SK", "item": w.items[*item].name, "reseal_block_len": reseal, "hseed": hseed}),
+        What::Qy { data, index, mode, qseed } => {
+            json!({"kind": "QY", "data": w.items[*data].name, "index": w.items[*index].name, "mode": mode.name(), "qseed": qseed})
+        }
+        What::Wr { item, level } => json!({"kind": "WR", "item": w.items[*item].name, "level": level}),
+    };
+    json!({"what": what, "cfgs": c.cfgs.iter().map(cfg_json).collect::<Vec<_>>()})
+}
+
+fn chunked(what: What, cfgs: Vec<Cfg>, per_case: usize, out: &mut Vec<Case>) {
+    for c in cfgs.chunks(per_case.max(1)) {
+        out.push(Case { what: what.clone(), cfgs: c.to_vec() });
+    }
+}
+
+/// Malformed versions of an item: cuts at / around structural boundaries and single-bit flips. XOR 1 keeps a damaged
+/// length field close to its old value (a flipped high bit makes the sync readers allocate tens of GB: C15's business).
+fn malforms(item: &Item, quick: bool) -> Vec<Malform> {
+    let len = item.bytes.len();
+    if len < 4 {
+        return vec![];
+    }
+    let b = corpus::boundaries(item);
+    let mid = b.get(b.len() / 2).copied().unwrap_or(len / 2);
+    let mut v = vec![
+        Malform::Truncate(len - 1),
+        Malform::Truncate(mid),
+        Malform::Truncate((mid + 5).min(len - 1)),
+        Malform::Flip(len * 2 / 3),
+        Malform::Flip(0),
+    ];
+    if !quick {
+        v.push(Malform::Truncate(len / 2));
+        v.push(Malform::Truncate(len.saturating_sub(14)));
+        v.push(Malform::Truncate(mid.saturating_sub(1).max(1)));
+        v.push(Malform::Flip(len / 2));
+        v.push(Malform::Flip(len - 1));
+        v.push(Malform::Flip(mid.min(len - 1)));
+    }
+    v.dedup();
+    if item.kind == Kind::Gzi {
+        // the leading u64 entry count: bit 0 of byte k >= 4 asks both readers for 2^(8k) * 16 bytes (abort: C15's business)
+        v.retain(|m| !matches!(m, Malform::Flip(n) if (1..8).contains(n)));
+    }
+    v
+}
+
+fn apply_malform(bytes: &[u8], m: &Malform) -> Vec<u8> {
+    let mut v = bytes.to_vec();
+    match m {
+        Malform::None => {}
+        Malform::Truncate(n) => v.truncate(*n),
+        Malform::Flip(n) => {
+            if let Some(b) = v.get_mut(*n) {
+                *b ^= 1;
+            }
+        }
+    }
+    v
+}
+
+/// Re-blocked layout of a BGZF-wrapped item: same inflated payload, members of `block_len` bytes (independent encoder).
+fn resealed(item: &Item, block_len: usize) -> Vec<u8> {
+    if block_len == 0 {
+        return item.bytes.clone();
+    }
+    match corpus::inflated_payload(item) {
+        Some(p) => obgzf::reseal(&p, block_len),
+        None => item.bytes.clone(),
+    }
+}
+
+fn salt_of(name: &str, extra: u64) -> u64 {
+    fnv1a(name.as_bytes()).wrapping_add(extra.wrapping_mul(0x9E37_79B9)) % 1_000_003
+}
+
+fn gen_world(ctx: &Ctx) -> World {
+    let quick = ctx.quick();
+    let tiny = ctx.param("tiny").is_some();
+    let scale = ctx.budget("scale", if tiny { 0 } else { 1 }, 2) as u8;
+    let items = corpus::items(ctx.seed, scale);
+    let mut cases = Vec::new();
+    let item_filter = ctx.param("item").map(|s| s.to_string());
+    let per_case = ctx.budget("pairs_per_case", 8, 16) as usize;
+    let n_rot = ctx.budget("cfgs", if tiny { 2 } else { 7 }, 0) as usize; // 0 = full product
+    let seed = ctx.seed;
+    let only = ctx.param("only").map(|s| s.to_string());
+    let want = |k: &str| only.as_deref().map(|o| o.split(',').any(|x| x == k)).unwrap_or(true);
+
+    // --- RD: valid inputs
+    if want("rd") {
+        for (i, item) in items.iter().enumerate() {
+            for &variant in rd::async_variants(item.kind) {
+                let bgzf = rd::uses_bgzf(item.kind);
+                let salt = salt_of(&item.name, variant as u64);
+                let cfgs = if n_rot > 0 { cfgs_rotating(n_rot, salt, seed, bgzf, item.bytes.len()) } else { cfgs_product(salt, seed, bgzf, item.bytes.len()) };
+                chunked(What::Rd { item: i, variant, reseal: 0, malform: Malform::None }, cfgs, per_case, &mut cases);
+            }
+        }
+    }
+    // --- RD: schedule exploration on re-blocked BGZF layouts (many small members => many jobs in flight)
+    if want("sched") {
+        let mut n_sched = 0;
+        for (i, item) in items.iter().enumerate() {
+            if !rd::has_worker_count(item.kind) || item.side.model.is_none() {
+                continue;
+            }
+            let plen = corpus::inflated_payload(item).map(|p| p.len()).unwrap_or(0);
+            if plen < 6_000 || (quick && plen > 200_000) {
+                continue;
+            }
+            // quick: one multi-block item per kind; thorough: all of them
+            if quick && !(item.name.contains("multiblock") || item.name.contains("mixed-flushes")) {
+                continue;
+            }
+            let block_len = (plen / 48).clamp(150, 3000);
+            let salt = salt_of(&item.name, 77);
+            let cfgs = cfgs_schedules(salt, seed, item.bytes.len(), if quick { 2 } else { 4 });
+            let variant = *rd::async_variants(item.kind).last().unwrap();
+            chunked(What::Rd { item: i, variant, reseal: block_len, malform: Malform::None }, cfgs, per_case, &mut cases);
+            n_sched += 1;
+            if tiny && n_sched >= 1 {
+                break;
+            }
+        }
+    }
+    // --- RD: malformed inputs
+    if want("mal") && !tiny {
+        for (i, item) in items.iter().enumerate() {
+            if quick && item.bytes.len() > 30_000 {
+                continue;
+            }
+            if !quick && item.bytes.len() > 300_000 {
+                continue;
+            }
+            for &variant in rd::async_variants(item.kind) {
+                for (mi, m) in malforms(item, quick).into_iter().enumerate() {
+                    let salt = salt_of(&item.name, 1000 + mi as u64 + 100 * variant as u64);
+                    let n = if quick { 2 } else { 6 };
+                    let cfgs = cfgs_rotating(n, salt, seed, rd::uses_bgzf(item.kind), item.bytes.len());
+                    chunked(What::Rd { item: i, variant, reseal: 0, malform: m }, cfgs, per_case, &mut cases);
+                }
+            }
+        }
+    }
+    // --- SK: BGZF histories with seeks
+    if want("sk") {
+        let n_hist = ctx.budget("seek_histories", if tiny { 1 } else { 3 }, 24) as u64;
+        for (i, item) in items.iter().enumerate() {
+            let eligible = item.kind == Kind::Bgzf || (item.kind == Kind::Bam && item.name.contains("multiblock")) || (!quick && matches!(item.kind, Kind::VcfGz | Kind::Bcf) && item.name.contains("manyblocks"));
+            if !eligible || (quick && item.bytes.len() > 100_000) {
+                continue;
+            }
+            for reseal in [0usize, 700] {
+                if reseal > 0 && (item.side.model.is_none() || item.kind != Kind::Bgzf && quick) {
+                    continue;
+                }
+                for h in 0..n_hist {
+                    let salt = salt_of(&item.name, 5000 + h + reseal as u64);
+                    let n = if quick { 3 } else { 8 };
+                    let mut cfgs = cfgs_rotating(n, salt, seed, true, item.bytes.len());
+                    for c in &mut cfgs {
+                        // tiny chunks make a history with many re-reads expensive
+                        c.script = scale_script(c.script.clone(), item.bytes.len(), 40_000);
+                    }
+                    chunked(What::Sk { item: i, reseal, hseed: seed.wrapping_mul(977).wrapping_add(h) }, cfgs, per_case, &mut cases);
+                }
+            }
+        }
+    }
+    // --- QY: region queries
+    if want("qy") && !tiny {
+        let n_q = ctx.budget("query_seeds", 2, 12) as u64;
+        for (ix, index) in items.iter().enumerate() {
+            let Some(dname) = &index.side.indexed_item else { continue };
+            let Some(dx) = items.iter().position(|d| &d.name == dname) else { continue };
+            for mode in qy::Mode::for_kinds(items[dx].kind, index.kind) {
+                for q in 0..n_q {
+                    let salt = salt_of(&index.name, 9000 + q + mode as u64 * 17);
+                    let n = if quick { 3 } else { 8 };
+                    let mut cfgs = cfgs_rotating(n, salt, seed, mode.uses_bgzf(), items[dx].bytes.len());
+                    for c in &mut cfgs {
+                        c.script = scale_script(c.script.clone(), items[dx].bytes.len(), 60_000);
+                    }
+                    chunked(What::Qy { data: dx, index: ix, mode, qseed: seed.wrapping_mul(31).wrapping_add(q) }, cfgs, per_case, &mut cases);
+                }
+            }
+        }
+    }
+    // --- WR: writers
+    if want("wr") {
+        for (i, item) in items.iter().enumerate() {
+            if !item.writable() || !wr::has_async_writer(item.kind) {
+                continue;
+            }
+            let bgzf = wr::has_worker_count(item.kind) || matches!(item.kind, Kind::Csi | Kind::Tbi);
+            let model_len = item.side.model.as_ref().map(|m| m.len()).unwrap_or(item.bytes.len()).max(item.bytes.len());
+            let levels: Vec<Option<u8>> = if item.kind == Kind::Bgzf && !tiny {
+                if quick { vec![None, Some(0), Some(1), Some(9)] } else { (0..=9).map(Some).chain([None]).collect() }
+            } else {
+                vec![None]
+            };
+            for (li, level) in levels.into_iter().enumerate() {
+                let salt = salt_of(&item.name, 20_000 + li as u64);
+                let n = if n_rot > 0 { if tiny { 2 } else { 5 } } else { 48 };
+                let mut cfgs = cfgs_rotating(n, salt, seed, bgzf, model_len);
+                if bgzf && model_len > 100_000 {
+                    // several blocks: add schedule configurations (every worker count, active plans)
+                    cfgs.extend(cfgs_schedules(salt, seed, model_len, if quick { 1 } else { 3 }));
+                }
+                chunked(What::Wr { item: i, level }, cfgs, per_case, &mut cases);
+            }
+        }
+    }
+    if let Some(f) = &item_filter {
+        // debugging aid: keep only the cases whose description mentions the given substring
+        let probe = World { items, cases: Vec::new() };
+        cases.retain(|c| case_json(&probe, c)["what"].to_string().contains(f.as_str()));
+        return World { items: probe.items, cases };
+    }
+    World { items, cases }
+}
+
+// ------------------------------------------------------------------------------------------------
+// running
+// ------------------------------------------------------------------------------------------------
+
+fn stats_fold(o: &mut CaseOut, module: &str, st: &PollStats) {
+    o.count(&format!("polls[{module}]"), st.polls);
+    o.count(&format!("pending_injections[{module}]"), st.pendings);
+    o.count(&format!("partial_transfers[{module}]"), st.partial);
+}
+
+fn order_fold(o: &mut CaseOut, module: &str, what: &str, workers: Option<usize>, plan: &str, st: &hook::OrderStats) {
+    if st.tasks == 0 {
+        return;
+    }
+    // readers / writers that build their BGZF layer themselves use the default worker count (number of CPUs)
+    let w = workers.map(|w| w.to_string()).unwrap_or_else(|| "default".into());
+    o.count(&format!("{what}_tasks[{module}]"), st.tasks);
+    o.count(&format!("{what}_inversions[{module}]"), st.inversions);
+    o.count(&format!("{what}_tasks[w={w}]"), st.tasks);
+    o.count(&format!("{what}_inversions[w={w}]"), st.inversions);
+    o.max(&format!("max_{what}_in_flight[w={w}]"), st.max_in_flight);
+    o.max(&format!("max_{what}_displacement"), st.max_displacement);
+    if plan != "none" {
+        o.count(&format!("{what}_scheduled_runs[w={w}]"), 1);
+    }
+    if st.inversions > 0 {
+        o.fps.push(fnv1a(format!("{what}|{w}|{}", st.order_hash).as_bytes()));
+    }
+}
+
+fn script_class_name(s: &PollScript) -> String {
+    format!("c{}{}p{}/{}", s.max_chunk, if s.random { "r" } else { "" }, s.pending_num, s.pending_den)
+}
+
+fn cfg_fp(module: &str, sub: &str, c: &Cfg) -> u64 {
+    fnv1a(format!("{module}|{sub}|{}|{}|{}|{}", script_class_name(&c.script), c.flavor.name(), c.workers, c.plan).as_bytes())
+}
+
+fn pair_counters(o: &mut CaseOut, module: &str, part: &str, c: &Cfg, workers: Option<usize>) {
+    o.count(&format!("pairs[{module}]"), 1);
+    o.count(&format!("pairs_{part}"), 1);
+    o.count(&format!("runtime_used[{}]", c.flavor.name()), 1);
+    if let Some(w) = workers {
+        o.count(&format!("workers_used[{w}]"), 1);
+    }
+}
+
+fn frames_of(bytes: &[u8]) -> Vec<Vec<u8>> {
+    match obgzf::walk_prefix(bytes) {
+        Ok((w, _)) => w.members.iter().map(|m| bytes[m.offset as usize..(m.offset + m.size) as usize].to_vec()).collect(),
+        Err(_) => Vec::new(),
+    }
+}
+
+fn elem_class(s: &str) -> &'static str {
+    match s.as_bytes().first() {
+        _ if s == "END" => "end",
+        _ if s.starts_with("ERR:") => "error",
+        _ if s.starts_with("QERR:") => "query-error",
+        Some(b'H') => "header",
+        Some(b'R') => "record",
+        Some(b'V') => "virtual-position",
+        Some(b'D') => "bytes",
+        Some(b'C') => "container",
+        Some(b'I') => "index",
+        Some(b'Q') => "query",
+        _ => "element",
+    }
+}
+
+fn terminator(t: &[String]) -> (&[String], &str) {
+    match t.last() {
+        Some(l) if l == "END" || l.starts_with("ERR:") => (&t[..t.len() - 1], l.as_str()),
+        _ => (t, "-"),
+    }
+}
+
+/// Class of the difference between the sync (expected) and the async (got) transcript, and the index of the first
+/// differing element. The class names the RELATION of the two element sequences (terminator set aside) and, if they
+/// differ, the two terminators — not the element index, so that it is stable across seeds:
+///   same-elements:<sync end>-><async end>      same elements, other terminator (error kind, spurious / missed error)
+///   async-stops-early[:a->b]                   async elements are a proper prefix of the sync elements
+///   async-goes-on[:a->b]                       sync elements are a proper prefix of the async elements
+///   diverges-at-<element class>[:a->b]         the element sequences themselves differ
+fn diff_class(expected: &[String], got: &[String]) -> Option<(usize, String)> {
+    let i = (0..expected.len().max(got.len())).find(|&i| expected.get(i) != got.get(i))?;
+    let (eb, et) = terminator(expected);
+    let (gb, gt) = terminator(got);
+    let relation = if eb == gb {
+        "same-elements".to_string()
+    } else if gb.len() < eb.len() && eb[..gb.len()] == *gb {
+        "async-stops-early".to_string()
+    } else if eb.len() < gb.len() && gb[..eb.len()] == *eb {
+        "async-goes-on".to_string()
+    } else {
+        let j = (0..eb.len().max(gb.len())).find(|&j| eb.get(j) != gb.get(j)).unwrap_or(0);
+        match (eb.get(j), gb.get(j)) {
+            (Some(e), Some(g)) if elem_class(e) == elem_class(g) => format!("diverges-at-{}", elem_class(e)),
+            (Some(e), Some(g)) => format!("diverges-at-{}-instead-of-{}", elem_class(g), elem_class(e)),
+            (Some(e), None) => format!("diverges-at-missing-{}", elem_class(e)),
+            (None, Some(g)) => format!("diverges-at-extra-{}", elem_class(g)),
+            (None, None) => "diverges".to_string(),
+        }
+    };
+    let class = if et == gt { relation } else { format!("{relation}:{et}->{gt}") };
+    Some((i, class))
+}
+
+/// Where a truncated BGZF-wrapped input was cut, relative to its members (independent walker).
+fn cut_class(bytes: &[u8]) -> &'static str {
+    match obgzf::walk_prefix(bytes) {
+        Ok((_, end)) => match bytes.len() - end {
+            0 => "truncated-at-member-boundary",
+            1..=17 => "truncated-in-member-header",
+            _ => "truncated-in-member-body",
+        },
+        Err(_) => "truncated",
+    }
+}
+
+/// Uncompressed data offset a virtual position denotes (None if it does not name a member start / a byte in a member).
+fn data_offset(walk: &obgzf::Walk, file_len: usize, v: u64) -> Option<u64> {
+    let (c, u) = (v >> 16, v & 0xffff);
+    if c == file_len as u64 && u == 0 {
+        return Some(walk.total);
+    }
+    let i = walk.members.iter().position(|m| m.offset == c)?;
+    if u as usize <= walk.members[i].data.len() { Some(walk.starts[i] + u) } else { None }
+}
+
+fn short(s: &str) -> String {
+    let s: String = s.chars().take(300).collect();
+    s.replace('\u{1f}', "␟").replace('\u{1e}', " // ")
+}
+
+fn strip_all(v: Vec<String>) -> Vec<String> {
+    v.into_iter().map(|s| rd::strip_msg(&s).to_string()).collect()
+}
+
+fn run_err(o: &mut CaseOut, sig_prefix: &str, what: &str, cfg: &Cfg, e: RunErr) {
+    match e {
+        RunErr::Panic(p) => o.violation(format!("{sig_prefix}:panic:{}", p.sig), format!("{what}: the async side panicked: {} [{}]", p.message, cfg_json(cfg))),
+        RunErr::Timeout => o.inconclusive.push(format!("{what}: wall-clock timeout of {} s fired [{}]", rt::timeout_s(), cfg_json(cfg))),
+        RunErr::Runtime(m) => o.inconclusive.push(format!("{what}: runtime problem: {m} [{}]", cfg_json(cfg))),
+    }
+}
+
+fn run_rd(w: &World, o: &mut CaseOut, item: &Item, variant: Variant, reseal: usize, malform: &Malform, cfgs: &[Cfg]) {
+    let kind = item.kind;
+    let module = kind.name();
+    let base = resealed(item, reseal);
+    let bytes = apply_malform(&base, malform);
+    let _ = w;
+    let side = item.side.clone();
+    let part = if *malform != Malform::None { "reader_malformed" } else if reseal > 0 { "reader_reblocked" } else { "reader_valid" };
+    // sync oracle
+    let expected = match guard::catch(|| corpus::transcript_read_variant(kind, variant, &bytes[..], &side, false, corpus::DEFAULT_CAP)) {
+        Ok(t) => t,
+        Err(p) => {
+            if *malform == Malform::None {
+                o.inconclusive.push(format!("{}: the SYNC reader panicked on a valid item ({}): not a C16 matter", item.name, p.sig));
+            }
+            o.count("sync_reader_panicked_input_skipped", 1);
+            return;
+        }
+    };
+    if *malform == Malform::None && expected.last().map(|s| s.as_str()) != Some("END") {
+        o.inconclusive.push(format!("{}: the sync transcript of a valid item ends with {:?}", item.name, expected.last()));
+    }
+    if expected.last().map(|s| s.starts_with("ERR:")).unwrap_or(false) {
+        o.count(&format!("inputs_with_sync_error[{module}]"), 1);
+    }
+    let frames = if rd::uses_bgzf(kind) { frames_of(&bytes) } else { Vec::new() };
+    let data = Arc::new(bytes);
+    let sig_prefix = format!("{module}:reader:{}:{}", variant_name(variant), malform.class());
+    for cfg in cfgs {
+        let wl = if rd::has_worker_count(kind) { Some(cfg.workers) } else { None };
+        pair_counters(o, module, part, cfg, wl);
+        let mut prng = Rng::new(cfg.script.seed, 0xD1, cfg.workers as u64);
+        hook::arm(&frames, hook::make_delays(cfg.plan, frames.len(), cfg.workers, &mut prng));
+        let src = PollRead::new(data.clone(), cfg.script.clone());
+        let stats = src.stats.clone();
+        let fut = rd::transcript(kind, variant, src, side.clone(), cfg.workers);
+        let res = rt::run(cfg.flavor, fut);
+        let log = hook::disarm();
+        stats_fold(o, module, &stats.lock().unwrap());
+        if rd::uses_bgzf(kind) {
+            order_fold(o, module, "inflate", wl, cfg.plan, &hook::analyse(&log, true));
+        }
+        o.fps.push(cfg_fp(module, &format!("rd|{}|{}|{}", variant_name(variant), malform.class(), reseal > 0), cfg));
+        match res {
+            Err(e) => run_err(o, &sig_prefix, &format!("{} ({:?})", item.name, malform), cfg, e),
+            Ok(got_raw) => {
+                let got = strip_all(got_raw.clone());
+                if let Some((i, class)) = diff_class(&expected, &got) {
+                    let sig = rd_signature(kind, variant, malform, &data, &expected, &got, i, &class);
+                    o.violation_with(
+                        sig,
+                        format!(
+                            "{} [{:?}, reseal {}]: element #{i}: sync reader: {:?}; async reader: {:?} (sync transcript {} elements, async {}; element before: {:?}; async continues with {:?}) [{}]",
+                            item.name,
+                            malform,
+                            reseal,
+                            expected.get(i).map(|s| short(s)),
+                            got_raw.get(i).map(|s| short(s)),
+                            expected.len(),
+                            got.len(),
+                            i.checked_sub(1).and_then(|j| expected.get(j)).map(|s| short(s)),
+                            got_raw.get(i + 1..(i + 3).min(got_raw.len())).map(|v| v.iter().map(|s| short(s)).collect::<Vec<_>>()),
+                            cfg_json(cfg)
+                        ),
+                        json!({"sync_error_message": corpus::last_error_message()}),
+                    );
+                } else {
+                    o.count("reader_pairs_equal", 1);
+                }
+            }
+        }
+    }
+}
+
+/// Violation signature of a reader difference: `<kind>:reader:<variant>:<input class>:<difference class>`, with two
+/// refinements that name a root cause instead of its kind-specific symptoms:
+/// * BGZF-wrapped inputs cut inside a member: the BGZF layers themselves disagree (sync: a partial 18-byte member header
+///   is a clean end of input and a partial body is UnexpectedEof; async: the partial frame is handed to the block parser),
+///   whatever format sits on top => `bgzf-layer:reader:<cut class>:…`;
+/// * virtual positions that differ but denote the same uncompressed offset (other member boundary representation).
+#[allow(clippy::too_many_arguments)]
+fn rd_signature(kind: Kind, variant: Variant, malform: &Malform, bytes: &[u8], expected: &[String], got: &[String], i: usize, class: &str) -> String {
+    let mut input = malform.class();
+    if kind.is_bgzf_wrapped() {
+        if let Malform::Truncate(_) = malform {
+            input = cut_class(bytes);
+            let (eb, et) = terminator(expected);
+            let (gb, gt) = terminator(got);
+            let prefix_related = eb == gb || (gb.len() < eb.len() && eb[..gb.len()] == *gb) || (eb.len() < gb.len() && gb[..eb.len()] == *eb);
+            if input == "truncated-in-member-header" && et == "END" && gt == "ERR:UnexpectedEof" && gb.len() <= eb.len() && prefix_related {
+                return "bgzf-layer:reader:truncated-in-member-header:async-UnexpectedEof-where-sync-ends-cleanly".into();
+            }
+            if input == "truncated-in-member-body" && et == "ERR:UnexpectedEof" && gt == "ERR:InvalidData" && prefix_related {
+                return "bgzf-layer:reader:truncated-in-member-body:error-kind:UnexpectedEof->InvalidData".into();
+            }
+        }
+        if class.starts_with("diverges-at-virtual-position") {
+            if let (Some(e), Some(g), Ok((walk, _))) = (expected.get(i), got.get(i), obgzf::walk_prefix(bytes)) {
+                let p = |s: &str| s.strip_prefix("V:").and_then(|x| x.parse::<u64>().ok());
+                if let (Some(ve), Some(vg)) = (p(e), p(g)) {
+                    let (oe, og) = (data_offset(&walk, bytes.len(), ve), data_offset(&walk, bytes.len(), vg));
+                    // the rest of the transcript must agree once V: elements are set aside
+                    let no_v = |t: &[String]| t.iter().filter(|s| !s.starts_with("V:")).cloned().collect::<Vec<_>>();
+                    if oe.is_some() && oe == og && no_v(expected) == no_v(got) {
+                        return format!("{}:reader:{}:{}:virtual-position-other-member-boundary-same-data-offset", kind.name(), variant_name(variant), input);
+                    }
+                }
+            }
+        }
+    }
+    format!("{}:reader:{}:{}:{}", kind.name(), variant_name(variant), input, class)
+}
+
+fn run_sk(o: &mut CaseOut, item: &Item, reseal: usize, hseed: u64, cfgs: &[Cfg], quick: bool) {
+    let module = "bgzf-seek";
+    let bytes = resealed(item, reseal);
+    let Ok(walk) = obgzf::walk(&bytes) else {
+        o.inconclusive.push(format!("{}: not walkable", item.name));
+        return;
+    };
+    let mut rng = Rng::new(hseed, 0x5E, fnv1a(item.name.as_bytes()));
+    let ops = sk::gen_ops(&mut rng, &walk, bytes.len(), if quick { 24 } else { 48 });
+    let index = sk::gzi_of(&walk);
+    let expected = match guard::catch(|| sk::drive_sync(&bytes, &index, &ops)) {
+        Ok(t) => t,
+        Err(p) => {
+            o.inconclusive.push(format!("{}: the SYNC reader panicked on the seek history (C02 territory): {}", item.name, p.sig));
+            return;
+        }
+    };
+    let frames = frames_of(&bytes);
+    let data = Arc::new(bytes);
+    for cfg in cfgs {
+        pair_counters(o, module, "seek", cfg, Some(cfg.workers));
+        o.count("seek_ops", ops.iter().filter(|x| matches!(x, sk::Op::Seek(_) | sk::Op::SeekU(_))).count() as u64);
+        let mut prng = Rng::new(cfg.script.seed, 0xD2, cfg.workers as u64);
+        hook::arm(&frames, hook::make_delays(cfg.plan, frames.len(), cfg.workers, &mut prng));
+        let src = PollRead::new(data.clone(), cfg.script.clone());
+        let stats = src.stats.clone();
+        let res = rt::run(cfg.flavor, sk::drive_async(src, cfg.workers, index.clone(), ops.clone()));
+        let log = hook::disarm();
+        stats_fold(o, module, &stats.lock().unwrap());
+        order_fold(o, module, "inflate", Some(cfg.workers), cfg.plan, &hook::analyse(&log, true));
+        o.fps.push(cfg_fp(module, &format!("sk|{}", reseal > 0), cfg));
+        match res {
+            Err(e) => run_err(o, "bgzf:seek", &item.name, cfg, e),
+            Ok(got) => {
+                if let Some((i, class)) = sk::first_diff(&expected, &got) {
+                    // what kind of operation shows the difference, and after which kind of seek
+                    let op = match ops.get(i) {
+                        Some(sk::Op::Seek(_)) => "seek",
+                        Some(sk::Op::SeekU(_)) => "seek-uncompressed",
+                        Some(_) => "read-after-seek",
+                        None => "end",
+                    };
+                    let last_seek = ops[..=i.min(ops.len() - 1)].iter().rev().find_map(|x| match x {
+                        sk::Op::Seek(v) => Some(seek_target_class(&walk, data.len(), *v)),
+                        sk::Op::SeekU(_) => Some("uncompressed-offset"),
+                        _ => None,
+                    });
+                    o.violation(
+                        format!("bgzf:seek:{class}:{op}:{}", last_seek.unwrap_or("no-seek-before")),
+                        format!(
+                            "{} (reseal {}): operation #{i} {:?}: sync reader observed {:?}, async reader {:?}; history: {:?} [{}]",
+                            item.name,
+                            reseal,
+                            ops.get(i),
+                            expected.get(i),
+                            got.get(i),
+                            &ops[..=i.min(ops.len() - 1)],
+                            cfg_json(cfg)
+                        ),
+                    );
+                } else {
+                    o.count("seek_pairs_equal", 1);
+                }
+            }
+        }
+    }
+}
+
+fn seek_target_class(walk: &obgzf::Walk, file_len: usize, v: u64) -> &'static str {
+    let (c, u) = (v >> 16, v & 0xffff);
+    if c == file_len as u64 {
+        return "end-of-file";
+    }
+    match walk.members.iter().position(|m| m.offset == c) {
+        Some(i) => {
+            let m = &walk.members[i];
+            if m.is_eof_marker {
+                "eof-marker"
+            } else if m.data.is_empty() {
+                "empty-member"
+            } else if u == 0 {
+                "member-start"
+            } else {
+                "inside-member"
+            }
+        }
+        None => "not-a-member",
+    }
+}
+
+fn run_qy(o: &mut CaseOut, data: &Item, index: &Item, mode: qy::Mode, qseed: u64, cfgs: &[Cfg], quick: bool) {
+    let module = format!("query-{}", mode.name());
+    let refs = match guard::catch(|| qy::references(mode, &data.bytes)) {
+        Ok(Ok(r)) => r,
+        _ => {
+            o.inconclusive.push(format!("{}: cannot read the header with the sync reader", data.name));
+            return;
+        }
+    };
+    let mut rng = Rng::new(qseed, 0x9E, fnv1a(index.name.as_bytes()));
+    let queries = qy::gen_queries(&mut rng, mode, &refs, if quick { 6 } else { 10 });
+    let expected = match guard::catch(|| qy::run_sync(mode, &data.bytes, &index.bytes, &data.side, &queries)) {
+        Ok(Ok(t)) => strip_all(t),
+        Ok(Err(e)) => {
+            o.inconclusive.push(format!("{} + {}: the sync side cannot start the query history: {e}", data.name, index.name));
+            return;
+        }
+        Err(p) => {
+            o.inconclusive.push(format!("{} + {}: the SYNC query panicked: {}", data.name, index.name, p.sig));
+            return;
+        }
+    };
+    o.count(&format!("query_records_sync[{}]", mode.name()), expected.iter().filter(|s| s.starts_with("R:")).count() as u64);
+    let frames = if mode.uses_bgzf() { frames_of(&data.bytes) } else { Vec::new() };
+    let bytes = Arc::new(data.bytes.clone());
+    for cfg in cfgs {
+        let wl = if mode.uses_bgzf() && mode != qy::Mode::GenericTbi { Some(cfg.workers) } else { None };
+        pair_counters(o, &module, "query", cfg, wl);
+        o.count("queries", queries.len() as u64);
+        let mut prng = Rng::new(cfg.script.seed, 0xD3, cfg.workers as u64);
+        hook::arm(&frames, hook::make_delays(cfg.plan, frames.len(), cfg.workers, &mut prng));
+        let src = PollRead::new(bytes.clone(), cfg.script.clone());
+        let stats = src.stats.clone();
+        let res = rt::run(cfg.flavor, qy::run_async(mode, src, index.bytes.clone(), data.side.clone(), queries.clone(), cfg.workers));
+        let log = hook::disarm();
+        stats_fold(o, &module, &stats.lock().unwrap());
+        if mode.uses_bgzf() {
+            order_fold(o, &module, "inflate", wl, cfg.plan, &hook::analyse(&log, true));
+        }
+        o.fps.push(cfg_fp(&module, "qy", cfg));
+        let sig_prefix = format!("{}:query", mode.name());
+        match res {
+            Err(e) => run_err(o, &sig_prefix, &format!("{} + {}", data.name, index.name), cfg, e),
+            Ok(Err(e)) => o.violation(
+                format!("{sig_prefix}:setup-error:{:?}", e.kind()),
+                format!("{} + {}: the async side failed before the first query ({e}) where the sync side succeeded [{}]", data.name, index.name, cfg_json(cfg)),
+            ),
+            Ok(Ok(got_raw)) => {
+                let got = strip_all(got_raw.clone());
+                if let Some((i, class)) = diff_class(&expected, &got) {
+                    // which query (and was it a repeat of the one before?)
+                    let qi = expected[..=i.min(expected.len() - 1)].iter().filter(|s| s.starts_with("Q:")).count().saturating_sub(1);
+                    let repeat = qi > 0 && queries.get(qi).map(|q| q.describe()) == queries.get(qi - 1).map(|q| q.describe());
+                    let qclass = match queries.get(qi) {
+                        Some(qy::Q::Unmapped) => "unmapped",
+                        Some(_) if repeat => "repeated-region",
+                        Some(_) => "region",
+                        None => "none",
+                    };
+                    o.violation(
+                        format!("{sig_prefix}:{class}:{qclass}"),
+                        format!(
+                            "{} + {}: element #{i} (query #{qi} {:?} of {:?}): sync: {:?}; async: {:?} (sync {} elements, async {}) [{}]",
+                            data.name,
+                            index.name,
+                            queries.get(qi).map(|q| q.describe()),
+                            queries.iter().map(|q| q.describe()).collect::<Vec<_>>(),
+                            expected.get(i).map(|s| short(s)),
+                            got_raw.get(i).map(|s| short(s)),
+                            expected.len(),
+                            got.len(),
+                            cfg_json(cfg)
+                        ),
+                    );
+                } else {
+                    o.count("query_pairs_equal", 1);
+                }
+            }
+        }
+    }
+}
+
+fn filter_elems(t: &[String], keep: &[&str]) -> Vec<String> {
+    t.iter().filter(|s| *s == "END" || s.starts_with("ERR:") || keep.iter().any(|k| s.starts_with(k))).cloned().collect()
+}
+
+fn run_wr(o: &mut CaseOut, item: &Item, level: Option<u8>, cfgs: &[Cfg]) {
+    let kind = item.kind;
+    let module = format!("{}-writer", kind.name());
+    let mut p = match guard::catch(|| corpus::prepare_write(item)) {
+        Ok(Ok(p)) => p,
+        _ => {
+            o.inconclusive.push(format!("{}: prepare_write failed", item.name));
+            return;
+        }
+    };
+    // the async CRAM writer has no layout override (hook H3 is sync only): both sides use the production layout
+    p.cram_layout = None;
+    let sync_out: Vec<u8> = {
+        let r = guard::catch(|| -> std::io::Result<Vec<u8>> {
+            if let (corpus::Model::Bgzf { payload, ops }, Some(_)) = (&p.model, level) {
+                wr::sync_bgzf_history(payload, ops, level)
+            } else {
+                let mut out = Vec::new();
+                corpus::write_prepared(&p, &mut out)?;
+                Ok(out)
+            }
+        });
+        match r {
+            Ok(Ok(v)) => v,
+            Ok(Err(e)) => {
+                o.count("sync_writer_rejected_history", 1);
+                o.inconclusive.push(format!("{}: the sync writer rejected the history: {e}", item.name));
+                return;
+            }
+            Err(pn) => {
+                o.inconclusive.push(format!("{}: the SYNC writer panicked: {}", item.name, pn.sig));
+                return;
+            }
+        }
+    };
+    let compressed = wr::output_is_compressed(kind);
+    let sync_walk = if kind.is_bgzf_wrapped() { obgzf::walk(&sync_out).ok() } else { None };
+    let blocks: Vec<Vec<u8>> = sync_walk.as_ref().map(|w| w.members.iter().filter(|m| !m.is_eof_marker).map(|m| m.data.clone()).collect()).unwrap_or_default();
+    let keep: &[&str] = if kind == Kind::Cram { &["H:", "R:"] } else { &["H:", "R:", "I:", "D:"] };
+    let side = item.side.clone();
+    let sync_tr = if compressed && kind != Kind::Bgzf {
+        match guard::catch(|| corpus::transcript_read(kind, &sync_out[..], &side, false)) {
+            Ok(t) => Some(filter_elems(&t, keep)),
+            Err(_) => None,
+        }
+    } else {
+        None
+    };
+    let p = Arc::new(p);
+    let sig_prefix = format!("{}:writer", kind.name());
+    for cfg in cfgs {
+        let wl = if wr::has_worker_count(kind) { Some(cfg.workers) } else { None };
+        pair_counters(o, &module, "writer", cfg, wl);
+        let mut prng = Rng::new(cfg.script.seed, 0xD4, cfg.workers as u64);
+        hook::arm(&blocks, hook::make_delays(cfg.plan, blocks.len(), cfg.workers + 1, &mut prng));
+        let sink = PollWrite::new(cfg.script.clone());
+        let (out, stats) = (sink.out.clone(), sink.stats.clone());
+        let p2 = p.clone();
+        let (workers, lvl) = (cfg.workers, level);
+        let res = rt::run_local(cfg.flavor, async move { wr::write_async(&p2, sink, workers, lvl).await });
+        let log = hook::disarm();
+        stats_fold(o, &module, &stats.lock().unwrap());
+        if kind.is_bgzf_wrapped() {
+            order_fold(o, &module, "deflate", wl, cfg.plan, &hook::analyse(&log, false));
+        }
+        o.fps.push(cfg_fp(&module, &format!("wr|{level:?}"), cfg));
+        let what = format!("{} (level {:?})", item.name, level);
+        match res {
+            Err(e) => run_err(o, &sig_prefix, &what, cfg, e),
+            Ok(Err(e)) => o.violation(
+                format!("{sig_prefix}:error-on-healthy-sink:{:?}", e.kind()),
+                format!("{what}: the async writer returned {:?} ({e}) on a sink that never fails; the sync writer accepts the same calls [{}]", e.kind(), cfg_json(cfg)),
+            ),
+            Ok(Ok(())) => {
+                let a = out.lock().unwrap().clone();
+                if !compressed {
+                    if a != sync_out {
+                        let i = a.iter().zip(&sync_out).position(|(x, y)| x != y).unwrap_or(a.len().min(sync_out.len()));
+                        let class = if a.len() < sync_out.len() && sync_out.starts_with(&a) {
+                            "output-truncated"
+                        } else if a.len() > sync_out.len() && a.starts_with(&sync_out) {
+                            "output-longer"
+                        } else {
+                            "bytes-differ"
+                        };
+                        o.violation(
+                            format!("{sig_prefix}:{class}"),
+                            format!(
+                                "{what}: async output ({} bytes) != sync output ({} bytes) for the same calls; first difference at byte {i}: async {:?} vs sync {:?} [{}]",
+                                a.len(),
+                                sync_out.len(),
+                                String::from_utf8_lossy(&a[i.saturating_sub(20)..(i + 20).min(a.len())]),
+                                String::from_utf8_lossy(&sync_out[i.saturating_sub(20)..(i + 20).min(sync_out.len())]),
+                                cfg_json(cfg)
+                            ),
+                        );
+                    } else {
+                        o.count("writer_pairs_byte_identical", 1);
+                    }
+                    continue;
+                }
+                // compressed output
+                let mut ok = true;
+                if kind.is_bgzf_wrapped() {
+                    match obgzf::walk(&a) {
+                        Err(why) => {
+                            ok = false;
+                            o.violation(format!("{sig_prefix}:malformed-bgzf"), format!("{what}: the independent walker rejects the async output ({} bytes): {why} [{}]", a.len(), cfg_json(cfg)));
+                        }
+                        Ok(wa) => {
+                            if !wa.ends_with_eof_marker() {
+                                ok = false;
+                                o.violation(format!("{sig_prefix}:missing-eof-marker"), format!("{what}: the async output ({} bytes, {} members) does not end with the EOF marker after shutdown() [{}]", a.len(), wa.members.len(), cfg_json(cfg)));
+                            }
+                            if let Some(ws) = &sync_walk {
+                                if wa.concat() != ws.concat() {
+                                    ok = false;
+                                    let ha: Vec<u64> = wa.members.iter().map(|m| fnv1a(&m.data)).collect();
+                                    let hs: Vec<u64> = ws.members.iter().map(|m| fnv1a(&m.data)).collect();
+                                    let (mut sa, mut ss) = (ha.clone(), hs.clone());
+                                    sa.sort_unstable();
+                                    ss.sort_unstable();
+                                    let class = if sa == ss {
+                                        "blocks-reordered"
+                                    } else if wa.total < ws.total {
+                                        "payload-shorter"
+                                    } else if wa.total > ws.total {
+                                        "payload-longer"
+                                    } else {
+                                        "payload-differs"
+                                    };
+                                    o.violation(
+                                        format!("{sig_prefix}:{class}"),
+                                        format!(
+                                            "{what}: the async output inflates to {} bytes in {} members, the sync output to {} bytes in {} members, and the payloads differ (deflate inversions observed in this run: {}) [{}]",
+                                            wa.total,
+                                            wa.members.len(),
+                                            ws.total,
+                                            ws.members.len(),
+                                            hook::analyse(&log, false).inversions,
+                                            cfg_json(cfg)
+                                        ),
+                                    );
+                                } else if a == sync_out {
+                                    o.count("observed_async_bgzf_output_byte_identical_to_sync", 1);
+                                } else {
+                                    o.count("observed_async_bgzf_output_same_payload_other_bytes", 1);
+                                }
+                            }
+                        }
+                    }
+                }
+                if let (true, Some(st)) = (ok, &sync_tr) {
+                    match guard::catch(|| corpus::transcript_read(kind, &a[..], &side, false)) {
+                        Err(pn) => o.violation(format!("{sig_prefix}:output-unreadable:panic"), format!("{what}: the sync reader panics on the async writer's output: {} [{}]", pn.sig, cfg_json(cfg))),
+                        Ok(t) => {
+                            let at = filter_elems(&t, keep);
+                            if let Some((i, class)) = diff_class(st, &at) {
+                                ok = false;
+                                o.violation(
+                                    format!("{sig_prefix}:decodes-differently:{class}"),
+                                    format!(
+                                        "{what}: element #{i} of what the outputs decode to: sync writer: {:?}; async writer: {:?} [{}]",
+                                        st.get(i).map(|s| short(s)),
+                                        at.get(i).map(|s| short(s)),
+                                        cfg_json(cfg)
+                                    ),
+                                );
+                            }
+                        }
+                    }
+                }
+                if ok {
+                    o.count("writer_pairs_decode_equal", 1);
+                }
+            }
+        }
+    }
+}
+
+fn run_case(ctx: &Ctx, w: &World, c: &Case) -> CaseOut {
+    let mut o = CaseOut::new();
+    o.evaluations = c.cfgs.len() as u64;
+    match &c.what {
+        What::Rd { item, variant, reseal, malform } => run_rd(w, &mut o, &w.items[*item], *variant, *reseal, malform, &c.cfgs),
+        What::Sk { item, reseal, hseed } => run_sk(&mut o, &w.items[*item], *reseal, *hseed, &c.cfgs, ctx.quick()),
+        What::Qy { data, index, mode, qseed } => run_qy(&mut o, &w.items[*data], &w.items[*index], *mode, *qseed, &c.cfgs, ctx.quick()),
+        What::Wr { item, level } => run_wr(&mut o, &w.items[*item], *level, &c.cfgs),
+    }
+    if o.sample.is_none() && o.violations.is_empty() {
+        o.sample = Some(case_json(w, c));
+    }
+    o
+}
+
+fn world(ctx: &Ctx) -> &'static World {
+    static W: OnceLock<World> = OnceLock::new();
+    W.get_or_init(|| gen_world(ctx))
+}
+
+fn main() {
+    let ctx = Ctx::from_args();
+    let ctx = vcore::cases::replay_request(&ctx).map(|r| r.1).unwrap_or(ctx);
+    noodles_bgzf::verif::set_hook(hook::hook);
+    let mut rep = Report::new(
+        "pair = (input or call history, configuration); inputs = every corpus item of a kind with an async reader (valid, \
+         re-blocked BGZF layout, truncated, one bit flipped), BGZF seek histories, query sequences over data + index items, \
+         write histories of every writable item; configuration = poll script class (always ready; chunk 1,2,3,7,17,4096; \
+         random chunks; Pending 1/2, 1/3, 1/10 x chunking) x tokio runtime (current-thread / 4-worker, future spawned on the \
+         workers) x BGZF worker count 1..8 x H1 delay plan; oracle = the synchronous reader / writer on the same bytes / \
+         calls; distinct = distinct (module, part, variant, input class, script class, runtime, worker count, plan) tuples \
+         plus every distinct completion order with at least one inversion",
+    );
+    rep.assumptions.push("record values are compared through noodles' own text writers + typed aux values + a hash of Debug of the header (corpus::render), not through raw buffers".into());
+    rep.assumptions.push("error MESSAGES are not compared, error kinds and their position in the transcript are".into());
+    rep.assumptions.push("completion order is observed at the H1 sites inside the spawn_blocking closures; sampled orders, not every permutation".into());
+    rep.assumptions.push("async CRAM writer is compared with the sync writer at the production layout (no layout override exists on the async side); CRAM / CRAI / BGZF outputs are compared by what they decode to".into());
+    let w = world(&ctx);
+    let f = |i: u64| -> CaseOut { run_case(&ctx, w, &w.cases[i as usize]) };
+    // many pairs sleep (delay plans) or wait for blocking threads: oversubscribe a little
+    let mut ctx_run = ctx.clone();
+    ctx_run.jobs = (ctx.jobs + ctx.jobs / 2).min(48);
+    run_cases(&ctx_run, &mut rep, w.cases.len() as u64, 300.0, &f, &|i| case_json(w, &w.cases[i as usize]));
+    if ctx.replay.is_none() {
+        let counters = rep.counters.clone();
+        let get = |k: &str| counters.get(k).copied().unwrap_or(0);
+        let only = ctx.param("only").is_some();
+        let tiny = ctx.param("tiny").is_some();
+        if !only {
+            // every async module of the quantifier was driven
+            for k in Kind::ALL {
+                if !rd::async_variants(*k).is_empty() {
+                    rep.floor(&format!("reader pairs of module {}", k.name()), get(&format!("pairs[{}]", k.name())), 1);
+                }
+                if wr::has_async_writer(*k) {
+                    rep.floor(&format!("writer pairs of module {}", k.name()), get(&format!("pairs[{}-writer]", k.name())), 1);
+                }
+            }
+            rep.floor("seek pairs", get("pairs_seek"), 1);
+            if !tiny {
+                rep.floor("query pairs", get("pairs_query"), 1);
+                rep.floor("malformed reader pairs", get("pairs_reader_malformed"), 1);
+                rep.floor("inputs on which the sync reader reports an error", counters.iter().filter(|(k, _)| k.starts_with("inputs_with_sync_error[")).map(|(_, v)| *v).sum(), 5);
+            }
+            rep.floor("Pending injections", counters.iter().filter(|(k, _)| k.starts_with("pending_injections[")).map(|(_, v)| *v).sum(), 100);
+            rep.floor("partial transfers", counters.iter().filter(|(k, _)| k.starts_with("partial_transfers[")).map(|(_, v)| *v).sum(), 100);
+            for fl in ["ct", "mt4"] {
+                rep.floor(&format!("pairs on runtime {fl}"), get(&format!("runtime_used[{fl}]")), 1);
+            }
+            // schedules: a worker count >= 2 that was exercised with a delay plan but never showed an inversion is
+            // inconclusive for that part
+            for what in ["inflate", "deflate"] {
+                for wk in 2..=8 {
+                    if get(&format!("{what}_scheduled_runs[w={wk}]")) > 0 || !tiny {
+                        rep.floor(&format!("{what} completion inversions at worker count {wk}"), get(&format!("{what}_inversions[w={wk}]")), 1);
+                    }
+                }
+                // deflate jobs are spawned when the block is handed over, before the ordered buffer: even at worker count
+                // 1 two jobs can be in flight; inflate jobs at worker count 1 are strictly sequential
+                if what == "inflate" && get("inflate_inversions[w=1]") > 0 {
+                    rep.inconclusive.push("worker count 1 showed inflate inversions: event attribution unreliable".to_string());
+                }
+            }
+        }
+        rep.extra.insert("hook_hits".into(), json!(hook::HOOK_HITS.load(std::sync::atomic::Ordering::Relaxed)));
+        rep.extra.insert("cases".into(), json!(w.cases.len()));
+    }
+    rep.finish(&ctx);
 }
